@@ -140,7 +140,7 @@ structure SymRow where
   name : List Char              -- full dotted name
   isConstant : Bool
   value : Int
-  bank : Option (Int × Option Nat)     -- (addr_start, output_offset) of the bank of a label
+  bank : Option (Int × Nat × Option Nat)     -- (addr_start, addr_unit, output_offset) of the bank of a label
 deriving Repr, Inhabited
 
 /-- `format_default`: the rows are the declared, emitted, integer-valued symbols in tree order -/
@@ -158,13 +158,14 @@ def mesenRow (r : SymRow) : List Char :=
   if r.isConstant then []
   else match r.bank with
     | none => []
-    | some (addrStart, outp) =>
+    | some (addrStart, unit, outp) =>
       let nm := r.name.map fun c => if c == '.' then '_' else c
       match outp with
       | some o =>
         match toUsizeI r.value, toUsizeI addrStart with
         | some a, some a0 =>
-          if a0 ≤ a && 16 ≤ a - a0 + o / 8 then "P:".toList ++ hexLow (a - a0 + o / 8 - 16) ++ ':' :: nm ++ ['\n'] else []
+          -- the file offset of the label in bytes: addresses count units of `unit` bits
+          if a0 ≤ a && 16 ≤ (a - a0) * unit / 8 + o / 8 then "P:".toList ++ hexLow ((a - a0) * unit / 8 + o / 8 - 16) ++ ':' :: nm ++ ['\n'] else []
         | _, _ => []
       | none => "R:".toList ++ hexInt r.value ++ ':' :: nm ++ ['\n']
 
